@@ -5,6 +5,7 @@ import hashlib
 import importlib
 import json
 import os
+import re
 import sys
 import time
 import traceback
@@ -97,7 +98,9 @@ def main():
     a = ap.parse_args()
     pid = a.pid.upper()
     tier = a.tier if a.tier in ("quick", "thorough") else "quick"
-    seed = int(os.environ.get("VERIF_SEED", "1") or 1)
+    # VERIF_SEED: one integer; anything else (a list, text) must not make the check die: the first integer in it is used
+    _m = re.search(r"-?\d+", os.environ.get("VERIF_SEED", "1") or "1")
+    seed = int(_m.group(0)) if _m else 1
     t0 = time.time()
     cfg = importlib.import_module("checks." + pid.lower())
     findings = L.load_findings(pid)
